@@ -3,7 +3,9 @@
 use crate::refmodel::crypto;
 use crate::refmodel::keccak::keccak256;
 use crate::refmodel::record::{KeyType, Scheme};
-use enr::{CombinedKey, EnrKey, EnrPublicKey, SigningError};
+#[cfg(feature = "builtin")]
+use enr::CombinedKey;
+use enr::{EnrKey, EnrPublicKey, SigningError};
 use serde::{Deserialize, Serialize};
 use std::cell::Cell;
 
@@ -136,6 +138,50 @@ pub trait Fam: EnrKey + Sized + 'static {
     }
 }
 
+/// the library's built-in key types; in the minimal configuration (enr without k256 / ed25519) they do not
+/// exist and are replaced by a placeholder that is never run (the engine maps such cases to custom families)
+#[cfg(feature = "builtin")]
+pub type K256Key = k256::ecdsa::SigningKey;
+#[cfg(feature = "builtin")]
+pub type EdKey = ed25519_dalek::SigningKey;
+#[cfg(feature = "builtin")]
+pub type CombKey = enr::CombinedKey;
+#[cfg(not(feature = "builtin"))]
+pub type K256Key = NoBuiltin;
+#[cfg(not(feature = "builtin"))]
+pub type EdKey = NoBuiltin;
+#[cfg(not(feature = "builtin"))]
+pub type CombKey = NoBuiltin;
+
+/// key type of the fixed record behind `TVal::Record`
+#[cfg(feature = "builtin")]
+pub type ExampleKey = k256::ecdsa::SigningKey;
+#[cfg(not(feature = "builtin"))]
+pub type ExampleKey = TinyKey;
+
+#[cfg(not(feature = "builtin"))]
+pub struct NoBuiltin;
+#[cfg(not(feature = "builtin"))]
+impl EnrKey for NoBuiltin {
+    type PublicKey = TinyPub;
+    fn sign_v4(&self, _: &[u8]) -> Result<Vec<u8>, SigningError> {
+        Err(SigningError::verif_new("key type not built"))
+    }
+    fn public(&self) -> TinyPub {
+        TinyPub(vec![0, 0, 0, 0], false)
+    }
+    fn enr_to_public(_: &std::collections::BTreeMap<Vec<u8>, bytes::Bytes>) -> Result<TinyPub, alloy_rlp::Error> {
+        Err(alloy_rlp::Error::Custom("key type not built"))
+    }
+}
+#[cfg(not(feature = "builtin"))]
+impl Fam for NoBuiltin {
+    fn make(_: FamId, _: &[u8; 32]) -> Self {
+        NoBuiltin
+    }
+}
+
+#[cfg(feature = "builtin")]
 impl Fam for k256::ecdsa::SigningKey {
     fn make(_: FamId, s: &[u8; 32]) -> Self {
         k256::ecdsa::SigningKey::from_slice(s).expect("valid secret")
@@ -145,20 +191,22 @@ impl Fam for k256::ecdsa::SigningKey {
 #[cfg(feature = "libsecp")]
 pub type LibsecpKey = secp256k1::SecretKey;
 #[cfg(not(feature = "libsecp"))]
-pub type LibsecpKey = k256::ecdsa::SigningKey;
+pub type LibsecpKey = K256Key;
 /// name of the library build configuration this binary checks
-pub const BUILD_CONFIG: &str = match (cfg!(feature = "libsecp"), !cfg!(feature = "plainprofile")) {
-    (true, true) => "main: all features, overflow checks and debug assertions on, log level Trace",
-    (true, false) => "plain-all: release profile (no debug assertions / overflow checks), all features, no logger",
-    (false, false) => "plain: release profile (no debug assertions / overflow checks), without rust-secp256k1, no logger",
-    (false, true) => "without rust-secp256k1, debug assertions on",
+pub const BUILD_CONFIG: &str = match (cfg!(feature = "builtin"), cfg!(feature = "libsecp"), !cfg!(feature = "plainprofile")) {
+    (true, true, true) => "main: all features, overflow checks and debug assertions on, log level Trace",
+    (true, true, false) => "plain-all: release profile (no debug assertions / overflow checks), all features, no logger",
+    (true, false, false) => "plain: release profile (no debug assertions / overflow checks), without rust-secp256k1, no logger",
+    (true, false, true) => "without rust-secp256k1, debug assertions on",
+    (false, _, _) => "minimal: enr with features [serde, verif] only (no built-in key type), custom key types alone; assertions on",
 };
 /// short tag of the configuration (file names)
-pub const BUILD_TAG: &str = match (cfg!(feature = "libsecp"), !cfg!(feature = "plainprofile")) {
-    (true, true) => "main",
-    (true, false) => "plain-all",
-    (false, false) => "plain",
-    (false, true) => "nolibsecp-debug",
+pub const BUILD_TAG: &str = match (cfg!(feature = "builtin"), cfg!(feature = "libsecp"), !cfg!(feature = "plainprofile")) {
+    (true, true, true) => "main",
+    (true, true, false) => "plain-all",
+    (true, false, false) => "plain",
+    (true, false, true) => "nolibsecp-debug",
+    (false, _, _) => "minimal",
 };
 
 #[cfg(feature = "libsecp")]
@@ -167,11 +215,13 @@ impl Fam for secp256k1::SecretKey {
         secp256k1::SecretKey::from_slice(s).expect("valid secret")
     }
 }
+#[cfg(feature = "builtin")]
 impl Fam for ed25519_dalek::SigningKey {
     fn make(_: FamId, s: &[u8; 32]) -> Self {
         ed25519_dalek::SigningKey::from_bytes(s)
     }
 }
+#[cfg(feature = "builtin")]
 impl Fam for CombinedKey {
     fn make(id: FamId, s: &[u8; 32]) -> Self {
         match id {
